@@ -382,7 +382,8 @@ def run(ctx):
         if not ctx.mine(idx):
             continue
         st = ir.Query(targets=[ir.Target(e)])
-        roundtrip(ctx, st, f'matrix/{label}', rng, only=('minimal', 'redundant', 'tight'))
+        extra = ('redundant', 'tight') if not ctx.quick else (('redundant',) if idx % 2 == 0 else ('tight',))
+        roundtrip(ctx, st, f'matrix/{label}', rng, only=('minimal', *extra))
         if idx % 3 == 0 or not ctx.quick:
             st2 = ir.Query(targets=[ir.Target(ir.col('k', None))], where=e, order_by=[ir.Key('expr', e, True)])
             roundtrip(ctx, st2, f'matrix-where/{label}', rng, only=('minimal',))
@@ -425,28 +426,32 @@ def run(ctx):
         for pos, st in ident_positions(name):
             roundtrip(ctx, st, f'ident/{name}/{pos}', rng, nontrivial=False, only=('minimal', 'mixedcase'))
             ctx.count('obs.identifier_positions')
-    # B. random statements in 4 renderings
-    for n in range(ctx.pick(40, 1500)):
-        if ctx.out_of_time():
-            break
-        random_case(ctx, n)
     # F. twins: parsing depends on the text only
     if ctx.shard % 2 == 0:
         fixed_twins(ctx)
     for n in range(ctx.pick(12, 600)):
-        twin_case(ctx, n)
-    # E. differential on mutated texts
-    rng = ctx.rng('mutate')
-    pool = list(_pool)
-    for n in range(ctx.pick(150, 6000)):
-        if ctx.out_of_time() or not pool:
+        if ctx.out_of_time():
             break
-        text = mutate(rng, rng.choice(pool))
-        if rng.random() < 0.3:
-            text = mutate(rng, text)
-        differential(ctx, text, 'mutated')
-        ctx.case(('mut', text), False)
-        ctx.count('obs.mutated_texts')
+        twin_case(ctx, n)
+    # B. random statements in 5 renderings, interleaved with E. the differential oracle on mutated texts
+    # (interleaved so that a run cut short by the watchdog has still exercised every part)
+    mrng = ctx.rng('mutate')
+    mutated = 0
+    per_case = ctx.pick(4, 4)
+    for n in range(ctx.pick(32, 1500)):
+        if ctx.out_of_time():
+            break
+        random_case(ctx, n)
+        pool = _pool[-400:]
+        for _ in range(per_case):
+            if not pool:
+                break
+            text = mutate(mrng, mrng.choice(pool))
+            if mrng.random() < 0.3:
+                text = mutate(mrng, text)
+            differential(ctx, text, 'mutated')
+            ctx.case(('mut', text), False)
+            ctx.count('obs.mutated_texts')
 
 
 def random_case(ctx, n):
